@@ -2,7 +2,7 @@
 
 from operator import attrgetter
 
-from y0.dsl import Distribution, Expression, Fraction, Probability
+from y0.dsl import Distribution, Expression, Fraction, One, Probability
 from y0.mutate.utils import Applier
 
 __all__ = ["contract", "recursive_contract"]
@@ -32,6 +32,8 @@ def contract(expression: Expression) -> Expression:
     ):
         return expression
     children = set(expression.numerator.children).difference(expression.denominator.children)
+    if not children:
+        return One()
     parents = set(expression.numerator.children).intersection(expression.denominator.children)
     return expression.numerator._new(
         Distribution(
